@@ -389,7 +389,11 @@ class Gen:
             if key in self.defined or rng.random() < 0.03:
                 return ("leaf", gen_ref_amount(rng, self.defined.get(key)), nm)
             return ("leaf", gen_quantity(rng) if rng.random() < 0.6 else None, nm)
-        return ("step", rng.choice(self.steps), [self.expr(depth - 1) for _ in range(rng.choice([1, 1, 2, 3]))])
+        inputs = [self.expr(depth - 1) for _ in range(rng.choice([1, 1, 2, 3]))]
+        if len(inputs) > 1 and rng.random() < 0.12:
+            # the same input written twice (identical references / ingredients in one step)
+            inputs.insert(rng.randrange(len(inputs) + 1), rng.choice(inputs))
+        return ("step", rng.choice(self.steps), inputs)
 
     def stmt(self, depth=None):
         rng = self.rng
@@ -404,6 +408,9 @@ class Gen:
         total = None
         if t[0] == "leaf" and t[1] is not None and t[1][0] in ("qty", "xqty"):
             total = (t[1][1], t[1][2])
+        elif t[0] == "leaf" and t[1] is None and svs_key(t[2]) in self.defined:
+            # a chain over a whole reference: once that definition is folded in, its total becomes this one's
+            total = self.defined[svs_key(t[2])]
         if outs:
             for o in outs:
                 self.defined.setdefault(svs_key(o), total if len(outs) == 1 else None)
